@@ -4,6 +4,10 @@ from vt.props import catalog, common
 from vt import explore
 prop=sys.argv[1]; tier=sys.argv[2] if len(sys.argv)>2 else 'quick'
 jobs=catalog.jobs_for(prop,tier,0)
+import os
+CAP=int(os.environ.get("PROBE_CAP","0"))
+if CAP:
+    for j in jobs: j["max_execs"]=min(j.get("max_execs") or CAP, CAP)
 print(len(jobs),'jobs')
 t0=time.time()
 def run(j):
